@@ -730,4 +730,146 @@ theorem App.run_induction (n : Nat) (P : App → List AEv → List AOp → Prop)
   intro ops
   simpa [App.run] using gen ops (App.init n) [] [] h0
 
+/-! ### a list that grows while the phase runs -/
+
+theorem grunFrom_prefix : ∀ (cs : List Cmd) (s : ML) (tr : List Ev), ∃ rest, (grunFrom s tr cs).2 = tr ++ rest := by
+  intro cs
+  induction cs with
+  | nil => intro s tr; exact ⟨[], by simp [grunFrom]⟩
+  | cons c cs ih =>
+    intro s tr
+    cases c with
+    | add => exact ih _ _
+    | call w b =>
+      obtain ⟨rest, h⟩ := ih (s.next b).1 (tr ++ .call w b :: (s.next b).2)
+      exact ⟨.call w b :: (s.next b).2 ++ rest, by simp [grunFrom, h]⟩
+
+theorem grunFrom_snoc_call : ∀ (cs : List Cmd) (s : ML) (tr : List Ev) (w : Nat) (b : Bool),
+    grunFrom s tr (cs ++ [.call w b]) =
+      (((grunFrom s tr cs).1.next b).1, (grunFrom s tr cs).2 ++ Ev.call w b :: ((grunFrom s tr cs).1.next b).2) := by
+  intro cs
+  induction cs with
+  | nil => intro s tr w b; rfl
+  | cons c cs ih =>
+    intro s tr w b
+    cases c with
+    | add => simpa [grunFrom] using ih _ _ w b
+    | call w' b' => simpa [grunFrom] using ih _ _ w b
+
+/-- invariant of a disciplined forward phase over a growing list (`n0` = length at `Filter`) -/
+def GInv (n0 : Nat) (s : ML) (tr : List Ev) : Prop :=
+  s.fwd = true ∧ n0 ≤ s.n ∧
+  ((∃ pos, Rel s pos ∧ Shape.posOK (List.range s.n) pos tr) ∨
+   (∃ n', n0 ≤ n' ∧ n' ≤ s.n ∧ tr = okPart (List.range n') ++ [.finish true]))
+
+theorem take_range_succ (n k : Nat) (h : k ≤ n) : (List.range (n + 1)).take k = (List.range n).take k := by
+  rw [List.range_succ, List.take_append_of_le_length (by simpa using h)]
+
+theorem getElem?_range_some {n k m : Nat} (h : (List.range n)[k]? = some m) : k < n ∧ m = k := by
+  rcases Nat.lt_or_ge k n with hk | hk
+  · rw [List.getElem?_range hk] at h; exact ⟨hk, by cases h; rfl⟩
+  · rw [List.getElem?_eq_none (by simpa using hk)] at h; cases h
+
+theorem GInv_grow {n0 : Nat} {s : ML} {tr : List Ev} (h : GInv n0 s tr) : GInv n0 s.grow tr := by
+  obtain ⟨hf, hn, h⟩ := h
+  refine ⟨hf, by simp [ML.grow]; omega, ?_⟩
+  rcases h with ⟨pos, hr, hp⟩ | ⟨n', h1, h2, h3⟩
+  · have hr' : Rel s.grow pos := by simpa [Rel, ML.grow, hf] using hr
+    rcases hp with ⟨m, hm, htr⟩ | ⟨k, m, hm, htr⟩ | htr
+    · obtain ⟨hk, hmk⟩ := getElem?_range_some hm
+      rw [hmk] at htr
+      refine .inl ⟨pos, hr', .inl ⟨pos, ?_, ?_⟩⟩
+      · simp only [ML.grow]; rw [List.getElem?_range (Nat.lt_succ_of_lt hk)]
+      · simp only [ML.grow]; rw [take_range_succ _ _ (Nat.le_of_lt hk)]; exact htr
+    · obtain ⟨hk, hmk⟩ := getElem?_range_some hm
+      rw [hmk] at htr
+      refine .inl ⟨pos, hr', .inr (.inl ⟨k, k, ?_, ?_⟩)⟩
+      · simp only [ML.grow]; rw [List.getElem?_range (Nat.lt_succ_of_lt hk)]
+      · simp only [ML.grow]; rw [take_range_succ _ _ (Nat.le_of_lt hk)]; exact htr
+    · exact .inr ⟨s.n, hn, by simp [ML.grow], htr⟩
+  · exact .inr ⟨n', h1, by simp [ML.grow]; omega, h3⟩
+
+theorem GInv_call {n0 : Nat} {s : ML} {tr : List Ev} (h : GInv n0 s tr) (w : Nat) (b : Bool)
+    (hl : Ev.enter w ∈ tr ∧ ∀ b', Ev.call w b' ∉ tr) :
+    GInv n0 (s.next b).1 (tr ++ .call w b :: (s.next b).2) ∧
+    ∃ pos, Shape.posOK (List.range s.n) pos (tr ++ .call w b :: (s.next b).2) := by
+  obtain ⟨hf, hn, h⟩ := h
+  rcases h with ⟨pos, hr, hp⟩ | ⟨n', _, _, htr⟩
+  · obtain ⟨h1, h2, h3, h4⟩ := next_eq s pos b hr
+    have hord : ord s.n s.fwd = List.range s.n := by simp [ord, hf]
+    rw [hord] at h1 h2
+    have hstep := posOK_step hp w b hl
+    rw [← h1] at hstep
+    refine ⟨⟨by rw [h4]; exact hf, by rw [h3]; exact hn, .inl ⟨_, h2, by rw [h3]; exact hstep⟩⟩, _, hstep⟩
+  · exfalso
+    obtain ⟨he, hc⟩ := hl
+    subst htr
+    simp only [List.mem_append, mem_okPart_enter, List.mem_singleton, reduceCtorEq, or_false] at he
+    exact hc true (by simp [mem_okPart_call, he])
+
+theorem GInv_init (n : Nat) : GInv n (filter n true).1 (filter n true).2 := by
+  obtain ⟨h1, h2, h3, h4⟩ := filter_rel n true
+  refine ⟨h3, by rw [h2]; exact Nat.le_refl _, .inl ⟨0, h1, ?_⟩⟩
+  rw [h2, h4]
+  have := posOK_init (ord n true)
+  simpa [ord] using this
+
+theorem GInv_grunFrom (n0 : Nat) : ∀ (cs : List Cmd) (s : ML) (tr : List Ev), GInv n0 s tr →
+    Disciplined (grunFrom s tr cs).2 → GInv n0 (grunFrom s tr cs).1 (grunFrom s tr cs).2 := by
+  intro cs
+  induction cs with
+  | nil => intro s tr h _; exact h
+  | cons c cs ih =>
+    intro s tr h hd
+    cases c with
+    | add => exact ih _ _ (GInv_grow h) hd
+    | call w b =>
+      simp only [grunFrom] at hd ⊢
+      obtain ⟨rest, hrest⟩ := grunFrom_prefix cs (s.next b).1 (tr ++ .call w b :: (s.next b).2)
+      have hl := hd tr w b ((s.next b).2 ++ rest) (by rw [hrest]; simp)
+      exact ih _ _ (GInv_call h w b hl).1 hd
+
+theorem GInv_shape {n0 : Nat} {s : ML} {tr : List Ev} (h : GInv n0 s tr) :
+    ∃ n', n0 ≤ n' ∧ n' ≤ s.n ∧ Shape (List.range n') tr := by
+  obtain ⟨_, hn, h⟩ := h
+  rcases h with ⟨pos, _, hp⟩ | ⟨n', h1, h2, rfl⟩
+  · exact ⟨s.n, hn, Nat.le_refl _, posOK_shape hp⟩
+  · exact ⟨n', h1, h2, .done⟩
+
+/-- the stop direction does not look at the live length at all -/
+theorem doNow_bwd_indep (s t : ML) (hs : s.fwd = false) (ht : t.fwd = false) (hi : s.idx = t.idx)
+    (h1 : s.idx < (s.n : Int)) (h2 : t.idx < (t.n : Int)) : s.doNow = t.doNow := by
+  obtain ⟨sn, sf, si⟩ := s
+  obtain ⟨tn, tf, ti⟩ := t
+  simp only at hs ht hi h1 h2
+  subst hs ht hi
+  simp only [ML.doNow, Bool.false_eq_true, ↓reduceIte]
+  by_cases h0 : si < 0
+  · simp [h0]
+  · simp [h0, h1, h2]
+
+theorem grunFrom_bwd : ∀ (cs : List Cmd) (s t : ML) (tr : List Ev), s.fwd = false → t.fwd = false → s.idx = t.idx →
+    s.idx < (s.n : Int) → t.idx < (t.n : Int) →
+    (grunFrom s tr cs).2 = (runFrom t tr (cmdCalls cs)).2 := by
+  intro cs
+  induction cs with
+  | nil => intro s t tr _ _ _ _ _; rfl
+  | cons c cs ih =>
+    intro s t tr hs ht hi h1 h2
+    cases c with
+    | add =>
+      simp only [grunFrom, cmdCalls]
+      exact ih s.grow t tr hs ht hi (by simp only [ML.grow]; omega) h2
+    | call w b =>
+      simp only [grunFrom, cmdCalls, runFrom]
+      cases b
+      · simp only [ML.next, Bool.not_false, ↓reduceIte]
+        exact ih s t _ hs ht hi h1 h2
+      · have e : ({ s with idx := if s.fwd then s.idx + 1 else s.idx - 1 } : ML).doNow =
+            ({ t with idx := if t.fwd then t.idx + 1 else t.idx - 1 } : ML).doNow :=
+          doNow_bwd_indep _ _ hs ht (by simp [hs, ht, hi]) (by simp [hs]; omega) (by simp [ht]; omega)
+        simp only [ML.next, Bool.not_true, Bool.false_eq_true, ↓reduceIte]
+        rw [e]
+        exact ih _ _ _ hs ht (by simp [hs, ht, hi]) (by simp [hs]; omega) (by simp [ht]; omega)
+
 end Cell2v.Modules
